@@ -100,3 +100,61 @@ def m_notify_new(c):
 def m_tokio_spawn(c, fut):
     c.ip.env.setdefault('spawned', []).append(fut)
     return Opaque('JoinHandle', 'spawned')
+
+
+# ----------------------------------------------------------------------------- md-5 / sha-1 digests: uninterpreted functions of the input bytes
+_DIGEST_UF = {}
+
+
+def digest_uf(algo, n, outbits):
+    key = (algo, n)
+    if key not in _DIGEST_UF:
+        _DIGEST_UF[key] = z3.Function('%s_%d' % (algo, n), *([z3.BitVecSort(8)] * n + [z3.BitVecSort(outbits)]))
+    return _DIGEST_UF[key]
+
+
+def digest_bytes(algo, data, outbytes):
+    """Digest of a byte list (BV8 values) as `outbytes` BV8 values: one uninterpreted function per input length, so two
+    computations over equal inputs are equal and nothing else is assumed."""
+    n = len(data)
+    if n == 0:
+        full = z3.BitVec('%s_empty' % algo, 8 * outbytes)
+    else:
+        full = digest_uf(algo, n, 8 * outbytes)(*[b.z() for b in data])
+    out = []
+    for i in range(outbytes):
+        hi = 8 * outbytes - 1 - 8 * i
+        out.append(bv(8, z3.Extract(hi, hi - 7, full)))
+    return out
+
+
+@model(r'^<(?:md5::|sha1::|sha2::)?\w*(?:CoreWrapper<.*>|Md5|Sha1|Sha256) as (?:md5::|sha1::|sha2::)?(?:digest::)?Digest>::(new|update|finalize|finalize_reset)(?:::<.*>)?$')
+def m_digest(c, *a):
+    ip = c.ip
+    op = c.m.group(1)
+    algo = 'md5' if 'Md5' in c.callee else ('sha1' if 'Sha1' in c.callee else 'sha256')
+    size = {'md5': 16, 'sha1': 20, 'sha256': 32}[algo]
+    if op == 'new':
+        return Seq([], 'hasher_' + algo)
+    if op == 'update':
+        h = seq(ip, a[0])
+        h.items.extend(items(ip, a[1]))
+        return unit()
+    h = seq(ip, a[0]) if isinstance(a[0], Ptr) else a[0]
+    out = digest_bytes(algo, list(h.items), size)
+    if op == 'finalize_reset':
+        h.items.clear()
+    return Seq(out, 'digest')
+
+
+@model(r'^tokio::io::(?:BufReader|BufWriter|BufStream)::<.*>::(new|with_capacity)$')
+def m_bufreader_new(c, *a):
+    return Agg([a[-1]], 'BufReader')
+
+
+@model(r'^tokio::io::(?:BufReader|BufWriter|BufStream)::<.*>::(get_mut|get_ref|into_inner)$')
+def m_bufreader_get(c, p):
+    v = deref(c.ip, p) if isinstance(p, Ptr) else p
+    if c.m.group(1) == 'into_inner':
+        return v.fields[0]
+    return Ptr(p.cell, p.path + (('f', 0),))
